@@ -257,6 +257,48 @@ func ruleF7(c *Ctx) {
 				}
 				bad = append(bad, c.P.Pos(pc.If.Pos()))
 			}
+			// and conversely: once the slot is known to be set, the copy happens on every way round the loop
+			// (a filter written as `v != nil && !(cond)` leaves the copy undominated by the extra test)
+			if len(bad) == 0 {
+				for _, pc := range pathConds(mu.Block()) {
+					x, neq, ok := nilTest(pc.If.Cond)
+					if !ok || !(x == mu.Value || sameTraceRoot(x, mu.Value)) || neq != pc.Branch {
+						continue
+					}
+					_, header := innermostLoop(fn, mu.Block())
+					if header == nil {
+						continue
+					}
+					start := pc.If.Block().Succs[0]
+					if !pc.Branch {
+						start = pc.If.Block().Succs[1]
+					}
+					if len(start.Instrs) == 0 {
+						continue
+					}
+					// a path from the "slot is set" edge back to the loop header that avoids the copy
+					seen := map[*ssa.BasicBlock]bool{}
+					var skip func(b *ssa.BasicBlock) bool
+					skip = func(b *ssa.BasicBlock) bool {
+						if b == header {
+							return true
+						}
+						if seen[b] || b == mu.Block() {
+							return false
+						}
+						seen[b] = true
+						for _, sc := range b.Succs {
+							if skip(sc) {
+								return true
+							}
+						}
+						return false
+					}
+					if skip(start) {
+						bad = append(bad, c.P.Pos(pc.If.Pos())+" (a path from the non-nil test back to the loop header bypasses the copy)")
+					}
+				}
+			}
 			if len(bad) > 0 {
 				c.viol(key, c.P.Pos(mu.Pos()), fmt.Sprintf("the copy of a module global into the globals dictionary is conditional on more than the slot being set (extra condition at %s): a global that is filtered out is not in the set that ExecFile freezes, so values reachable only from it stay mutable", strings.Join(bad, ", ")))
 			} else {
@@ -969,6 +1011,7 @@ func init() {
 }
 
 var i9Exceptions = map[string]string{
+	"sig: / overflow by starlark.rangeValue.step": "range membership (delta / step): the quotient is only compared with 0 and the length, and only when the remainder is zero; the single wrapping case (delta = MinInt, step = -1) yields a negative quotient and the answer False, which is also the exact answer (the exact quotient 2^63 exceeds every length)",
 	"(starlark.rangeValue).contains: / overflow": "the quotient is only compared with 0 and the length, and only when the remainder is zero; the single wrapping case (delta = MinInt, step = -1) yields a negative quotient and the answer False, which is also the exact answer (the exact quotient 2^63 exceeds every length)",
 	"(lib/time.Duration).Binary: /":              "duration / int (operator /, not //): the time module defines it as Go's Duration division, which discards the sub-nanosecond part toward zero",
 }
@@ -1172,6 +1215,17 @@ func ruleI9(c *Ctx) {
 						}
 						if dv != iv && !reachUnder(fn.Blocks[0], bo.Block(), eval) {
 							guarded = true
+						}
+					}
+					// a named site is also recognised by what it divides by (a field of a named struct), so that
+					// turning a method into a function or renaming it does not lose the reason
+					if _, named := i9Exceptions[key+" overflow"]; !named && !guarded {
+						if tr := traceValue(bo.Y); len(tr.fields) > 0 && len(tr.owners) > 0 {
+							sig := "sig: / overflow by " + qualType(tr.owners[0]) + "." + tr.fields[0].Name()
+							if r, ok := i9Exceptions[sig]; ok {
+								c.except(key+" overflow", pos, r)
+								guarded = true
+							}
 						}
 					}
 					if r, ok := i9Exceptions[key+" overflow"]; ok && !guarded {
